@@ -45,8 +45,14 @@ def cases(rng, tier):
         else:
             rows = rng.randint(r + 1, 60)
         kind = rng.choice(KINDS)
+        big = rng.random() < 0.12
+        if big:
+            # long swap histories (rows enter, leave and re-enter the submatrix): larger ranks, tight tolerance
+            r = rng.randint(12, 30); rows = r + rng.randint(10, 60); kind = rng.choice(["gauss", "gauss", "orth"])
         c = {"kind": kind, "n": rows, "r": r, "seed": rng.randrange(1 << 30), "order": rng.choice(["C", "F"])}
-        if rng.random() < 0.5:
+        if big:
+            c["routine"] = "maxvol"; c["tol"] = rng.choice([1.0, 1.0, 1.01, 1.05]); c["max_iters"] = 10000
+        elif rng.random() < 0.5:
             c["routine"] = "maxvol"
             c["tol"] = rng.choice(SQ_TOL)
             c["max_iters"] = 10000 if rng.random() < 0.8 else rng.randint(0, 3)
